@@ -159,7 +159,7 @@ func c02History(r *hx.Run, w *W, rnd *rand.Rand, hi int, epochs []c02Epoch) {
 		// taken as soon as the fetch is at the origin: the location's 200 ms proxy timeout may end the fetch
 		// at any moment from here on (on a loaded machine even before the waiters have arrived)
 		enterBefore := w.Pts.Count("cacheable.enter") + w.Pts.Count("hfp.enter")
-		savedBefore := w.Pts.Count("cacheable.saved") + w.Pts.Count("hfp.saved")
+		savedBefore := completionsDone(w.Pts)
 		var hold *hx.Hold
 		if strings.HasPrefix(ep.Variant, "held_registered") && ep.Waiters > 0 {
 			hold = w.Pts.HoldNext("get.registered")
@@ -267,7 +267,7 @@ func c02History(r *hx.Run, w *W, rnd *rand.Rand, hi int, epochs []c02Epoch) {
 			completed = false
 		}
 		// server-side quiescence: the fetch's completion (Cacheable / HitForPass) has run to its end
-		if completed && !hx.WaitUntil(20*time.Second, func() bool { return w.Pts.Count("cacheable.saved")+w.Pts.Count("hfp.saved") > savedBefore }) {
+		if completed && !hx.WaitUntil(20*time.Second, func() bool { return completionsDone(w.Pts) > savedBefore }) {
 			completed = false
 		}
 		w.Pts.SetCustom(nil)
